@@ -59,6 +59,13 @@ struct PluginSettings {
     rewriteDef: Option<PathBuf>,
 }
 
+/// Upper-case letters and title-case letters (e.g. `ǅ`, which are not `is_uppercase`)
+/// have a lower-case form different from themselves
+#[inline]
+fn has_lowercase_form(c: char) -> bool {
+    c.is_uppercase() || c.to_lowercase().next() != Some(c)
+}
+
 impl DefaultInputTextPlugin {
     /// Loads rewrite definition
     ///
@@ -196,7 +203,7 @@ impl DefaultInputTextPlugin {
             }
 
             // 2. handle normalization
-            let need_lowercase = ch.is_uppercase();
+            let need_lowercase = has_lowercase_form(ch);
             let need_nkfc = !self.should_ignore(ch)
                 && match is_nfkc_quick(std::iter::once(ch)) {
                     IsNormalized::Yes => false,
@@ -283,7 +290,7 @@ impl InputTextPlugin for DefaultInputTextPlugin {
             _ => true,
         };
 
-        let need_lowercase = chars.iter().any(|c| c.is_uppercase());
+        let need_lowercase = chars.iter().any(|c| has_lowercase_form(*c));
 
         if need_nkfc || need_lowercase {
             self.replace_slow(buffer, edit)
